@@ -199,8 +199,8 @@ SPEC_MUTANTS = [
      'LET lines == SeqOf({Shape(o) : o \\in RangeLines(merged, s, e)})',
      'LET lines == SeqOf({[id |-> <<o.wk, o.x>>, carries |-> CarriesOf(o)] : o \\in RangeLines(merged, s, e)})'),
     ('an increment lands in the previous file of the build', 'IncLands',
-     'ELSE LET b == Begin(day)  e == End(day, wend)\n                Bump(cs)',
-     'ELSE LET prev == {c \\in files : c.p = p}\n                b == IF prev = {} THEN Begin(day) ELSE (CHOOSE c \\in prev : TRUE).b\n                e == IF prev = {} THEN End(day, wend) ELSE (CHOOSE c \\in prev : TRUE).e\n                Bump(cs)'),
+     'ELSE LET b == Begin(day)  e == End(day, wend)\n                BumpCount(cs)',
+     'ELSE LET prev == {c \\in files : c.p = p}\n                b == IF prev = {} THEN Begin(day) ELSE (CHOOSE c \\in prev : TRUE).b\n                e == IF prev = {} THEN End(day, wend) ELSE (CHOOSE c \\in prev : TRUE).e\n                BumpCount(cs)'),
 ]
 
 
